@@ -350,10 +350,10 @@ func genRefFrame(t *rapid.T, canBeLast bool, legal bool, maxData int) refwire.Fr
 }
 
 var allFrameNames = []string{refwire.NamePing, refwire.NameAck, refwire.NameAck, refwire.NameResetStream, refwire.NameResetStreamAt,
-		refwire.NameStopSending, refwire.NameCrypto, refwire.NameNewToken, refwire.NameStream, refwire.NameStream, refwire.NameMaxData,
-		refwire.NameMaxStreamData, refwire.NameMaxStreams, refwire.NameDataBlocked, refwire.NameStreamDataBlocked, refwire.NameStreamsBlocked,
-		refwire.NameNewConnectionID, refwire.NameRetireConnectionID, refwire.NamePathChallenge, refwire.NamePathResponse,
-		refwire.NameConnectionClose, refwire.NameHandshakeDone, refwire.NameDatagram, refwire.NameImmediateAck, refwire.NameAckFrequency}
+	refwire.NameStopSending, refwire.NameCrypto, refwire.NameNewToken, refwire.NameStream, refwire.NameStream, refwire.NameMaxData,
+	refwire.NameMaxStreamData, refwire.NameMaxStreams, refwire.NameDataBlocked, refwire.NameStreamDataBlocked, refwire.NameStreamsBlocked,
+	refwire.NameNewConnectionID, refwire.NameRetireConnectionID, refwire.NamePathChallenge, refwire.NamePathResponse,
+	refwire.NameConnectionClose, refwire.NameHandshakeDone, refwire.NameDatagram, refwire.NameImmediateAck, refwire.NameAckFrequency}
 
 // namesFor lists the frame names a parser with the given configuration must accept at level.
 func namesFor(level int, dg, rsa, af bool) []string {
